@@ -2,28 +2,32 @@
 //
 // Drives a REAL BaseExporter (queue sender + batcher + retry sender + obs-report sender) whose export
 // function blocks on a gate owned by the harness.  The harness performs one ACTION at a time
-//     offer(id, items) | release(call, outcome) | call Shutdown (in its own goroutine)
+//
+//	offer(id, items) | release(call, outcome) | call Shutdown (in its own goroutine)
+//
 // and after each action waits for QUIESCENCE: a stop-the-world goroutine dump (runtime.Stack) in which
 // every goroutine of the exporter is blocked (cond wait, channel receive, select, WaitGroup) — no sleeps,
 // no wall-clock comparison.  The events logged between two quiescent points form one phase.
 //
 // Case term (Coq, type C03.Harness.ctype):  (cfg, [(action, sorted events of the phase)], (stored ids, live goroutines))
 // Direct oracle (independent of the Coq model), on the ordered event log of each schedule:
-//   lost-accepted-request     memory queue: an id accepted before Shutdown was called has no export begin before the return
-//   duplicate-export          no export outcome was a failure, yet an id was handed to the export function twice
-//   export-open-at-return     an export call had not returned when Shutdown returned
-//   begin-after-return        an export call began after Shutdown returned (or after the wrapped exporter's shutdown)
-//   goroutine-leak            helper goroutines alive after Shutdown returned
-//   not-durable               persistent queue: an id accepted before Shutdown neither finished nor is still stored
-//   shutdown-hangs            Shutdown did not return although every export call was answered
-//   storage-misuse            storage used after Close, or not closed exactly once by the time Shutdown returned
-//   not-redelivered           (restart) an id still stored after shutdown is not exported by the next instance
+//
+//	lost-accepted-request     memory queue: an id accepted before Shutdown was called has no export begin before the return
+//	duplicate-export          no export outcome was a failure, yet an id was handed to the export function twice
+//	export-open-at-return     an export call had not returned when Shutdown returned
+//	begin-after-return        an export call began after Shutdown returned (or after the wrapped exporter's shutdown)
+//	goroutine-leak            helper goroutines alive after Shutdown returned
+//	not-durable               persistent queue: an id accepted before Shutdown neither finished nor is still stored
+//	shutdown-hangs            Shutdown did not return although every export call was answered
+//	storage-misuse            storage used after Close, or not closed exactly once by the time Shutdown returned
+//	not-redelivered           (restart) an id still stored after shutdown is not exported by the next instance
 package internal
 
 import (
 	"context"
 	"errors"
 	"fmt"
+	"reflect"
 	"runtime"
 	"sort"
 	"strconv"
@@ -31,6 +35,7 @@ import (
 	"sync"
 	"testing"
 	"time"
+	"unsafe"
 
 	"go.opentelemetry.io/collector/component"
 	"go.opentelemetry.io/collector/component/componenttest"
@@ -52,15 +57,28 @@ type vReq struct {
 
 func (r *vReq) ItemsCount() int { return r.items }
 
-// MergeSplit: merge only (the harness configures max_size = 0), never mutates its inputs.
-func (r *vReq) MergeSplit(_ context.Context, _ int, _ request.SizerType, r2 request.Request) ([]request.Request, error) {
+// MergeSplit never mutates its inputs.  The gated schedules configure max_size = 0 (merge only); the stress
+// schedules use requests with one id per item (items == len(ids)) and split them into chunks of max_size.
+func (r *vReq) MergeSplit(_ context.Context, maxSize int, _ request.SizerType, r2 request.Request) ([]request.Request, error) {
 	m := &vReq{ids: append([]int(nil), r.ids...), items: r.items}
 	if r2 != nil {
 		o := r2.(*vReq)
 		m.ids = append(m.ids, o.ids...)
 		m.items += o.items
 	}
-	return []request.Request{m}, nil
+	if maxSize <= 0 || m.items <= maxSize || m.items != len(m.ids) {
+		return []request.Request{m}, nil
+	}
+	var res []request.Request
+	for len(m.ids) > 0 {
+		n := maxSize
+		if n > len(m.ids) {
+			n = len(m.ids)
+		}
+		res = append(res, &vReq{ids: append([]int(nil), m.ids[:n]...), items: n})
+		m.ids = m.ids[n:]
+	}
+	return res, nil
 }
 
 type vEnc struct{}
@@ -186,6 +204,10 @@ type vCfg struct {
 	mode       int  // retry: 0 off, 1 long back-off, 2 short back-off, 3 gives up immediately
 	consumers  int
 	min        int
+	// stress schedules only
+	max      int           // max_size (0 = none)
+	flush    time.Duration // flush_timeout when timer is set (0 = one hour: never fires)
+	capacity int           // queue capacity (0 = one million)
 }
 
 func (c vCfg) term() string {
@@ -220,7 +242,8 @@ type vRun struct {
 	events   []vEvent
 	phase    int
 	inflight []*vCall
-	auto     bool // release every call immediately with success (clean-up / restart instance)
+	auto     bool   // release every call immediately with success (clean-up / restart instance)
+	stress   *vRand // stress schedules: the backend answers by itself (random outcome, small random delay)
 	returned bool
 	be       *BaseExporter
 	st       *vStorage
@@ -246,9 +269,20 @@ func (h *vRun) push(_ context.Context, req request.Request) error {
 	h.events = append(h.events, vEvent{kind: 0, ids: ids, phase: h.phase})
 	h.inflight = append(h.inflight, c)
 	auto := h.auto
+	o, delay := 0, 0
+	if h.stress != nil && !auto {
+		o = h.stress.Pick(70, 20, 10)
+		delay = h.stress.Intn(300)
+	}
+	stress := h.stress != nil
 	h.mu.Unlock()
-	o := 0
-	if !auto {
+	if stress {
+		if delay > 100 {
+			time.Sleep(time.Duration(delay) * time.Microsecond)
+		} else if delay > 50 {
+			runtime.Gosched()
+		}
+	} else if !auto {
 		o = <-c.gate
 	}
 	h.mu.Lock()
@@ -300,6 +334,11 @@ func (h *vRun) snapshot() (quiet bool, helpers int, busy string) {
 		case "select", "chan receive", "chan send", "semacquire", "sync.Cond.Wait":
 			blocked = true
 		}
+		// "semacquire" is a real wait only in WaitGroup.Wait: a goroutine that starts a GC cycle parks on the
+		// runtime's world semaphore with the same wait reason while THIS dump holds it
+		if st == "semacquire" && !strings.Contains(blk, "sync.(*WaitGroup).Wait") {
+			blocked = false
+		}
 		// a back-off wait that will elapse by itself is not quiescent
 		if blocked && st == "select" && h.cfg.mode != 1 && strings.Contains(blk, "retrySender).Send") {
 			blocked = false
@@ -345,6 +384,9 @@ func vNewRun(cfg vCfg, st *vStorage, auto bool) (*vRun, error) {
 	qcfg := NewDefaultQueueConfig()
 	qcfg.NumConsumers = cfg.consumers
 	qcfg.QueueSize = 1_000_000
+	if cfg.capacity > 0 {
+		qcfg.QueueSize = int64(cfg.capacity)
+	}
 	storageID := component.MustNewIDWithName("file_storage", "c03")
 	if cfg.persistent {
 		qcfg.StorageID = &storageID
@@ -357,10 +399,13 @@ func vNewRun(cfg vCfg, st *vStorage, auto bool) (*vRun, error) {
 	flush := time.Duration(0)
 	if cfg.timer {
 		flush = time.Hour
+		if cfg.flush > 0 {
+			flush = cfg.flush
+		}
 	}
 	if cfg.batch && !cfg.legacy {
 		qcfg.Sizer = request.SizerTypeItems
-		qcfg.Batch = &queuebatch.BatchConfig{FlushTimeout: flush, MinSize: int64(cfg.min), MaxSize: 0}
+		qcfg.Batch = &queuebatch.BatchConfig{FlushTimeout: flush, MinSize: int64(cfg.min), MaxSize: int64(cfg.max)}
 	}
 	if cfg.mode != 0 {
 		rcfg := configretry.NewDefaultBackOffConfig()
@@ -384,7 +429,7 @@ func vNewRun(cfg vCfg, st *vStorage, auto bool) (*vRun, error) {
 	opts = append(opts, WithQueue(qcfg))
 	if cfg.batch && cfg.legacy {
 		opts = append(opts, WithBatcher(BatcherConfig{Enabled: true, FlushTimeout: flush,
-			SizeConfig: SizeConfig{Sizer: request.SizerTypeItems, MinSize: int64(cfg.min)}}))
+			SizeConfig: SizeConfig{Sizer: request.SizerTypeItems, MinSize: int64(cfg.min), MaxSize: int64(cfg.max)}}))
 	}
 	be, err := NewBaseExporter(exportertest.NewNopSettings(exportertest.NopType), pipeline.SignalLogs, h.push, opts...)
 	if err != nil {
@@ -450,6 +495,31 @@ func (h *vRun) releaseAll() {
 	h.mu.Unlock()
 }
 
+// vFlush writes the buffered output now: an oracle failure must survive a later panic of the (edited) code under test.
+func vFlush(out *vOut) {
+	out.mu.Lock()
+	out.w.Flush()
+	out.mu.Unlock()
+}
+
+// vBatchTimer digs the flush timer out of the real batcher (QueueSender -> *QueueBatch.batcher ->
+// *defaultBatcher.timer); unexported fields of another package, hence reflect + unsafe.  nil if absent.
+func vBatchTimer(be *BaseExporter) (t *time.Timer) {
+	defer func() {
+		if recover() != nil {
+			t = nil
+		}
+	}()
+	peek := func(v reflect.Value) reflect.Value {
+		return reflect.NewAt(v.Type(), unsafe.Pointer(v.UnsafeAddr())).Elem()
+	}
+	qb := reflect.ValueOf(be.QueueSender).Elem()
+	b := peek(qb.FieldByName("batcher")).Elem().Elem()
+	tm := peek(b.FieldByName("timer"))
+	t, _ = tm.Interface().(*time.Timer)
+	return t
+}
+
 type vSched struct {
 	term   string
 	racy   bool
@@ -464,6 +534,142 @@ func vContains(l []int, x int) bool {
 		}
 	}
 	return false
+}
+
+// vOracle evaluates the property itself on the ordered event log of one schedule (independent of the Coq model).
+func vOracle(h *vRun, cfg vCfg, st *vStorage, acceptedPre []int, stored []int, helpers int, fail func(kind, detail string)) {
+	h.mu.Lock()
+	evs := append([]vEvent(nil), h.events...)
+	h.mu.Unlock()
+	retAt, innerAt, callAt := -1, -1, -1
+	anyFail := false
+	for k, e := range evs {
+		switch e.kind {
+		case 2:
+			retAt = k
+		case 3:
+			if innerAt >= 0 {
+				fail("begin-after-return", "wrapped exporter shut down twice")
+			}
+			innerAt = k
+		case 7:
+			callAt = k
+		case 1:
+			if e.out != 0 {
+				anyFail = true
+			}
+		}
+	}
+	if innerAt < 0 || innerAt > retAt {
+		fail("begin-after-return", "wrapped exporter not shut down before Shutdown returned")
+	}
+	begins := map[int]int{}
+	lastOut := map[int]int{}
+	open := map[string]int{}
+	for k, e := range evs {
+		key := fmt.Sprint(e.ids)
+		switch e.kind {
+		case 0:
+			if k > retAt {
+				fail("begin-after-return", fmt.Sprintf("export of %v began after Shutdown returned", e.ids))
+			} else if innerAt >= 0 && k > innerAt {
+				fail("begin-after-return", fmt.Sprintf("export of %v began after the wrapped exporter was shut down", e.ids))
+			}
+			for _, i := range e.ids {
+				begins[i]++
+				lastOut[i] = -1
+			}
+			open[key]++
+		case 1:
+			open[key]--
+			for _, i := range e.ids {
+				lastOut[i] = e.out
+			}
+		case 2:
+			for kk, n := range open {
+				if n > 0 {
+					fail("export-open-at-return", "export call "+kk+" had not returned when Shutdown returned")
+				}
+			}
+		}
+	}
+	_ = callAt
+	for _, i := range acceptedPre {
+		if !cfg.persistent && begins[i] == 0 {
+			fail("lost-accepted-request", fmt.Sprintf("id %d accepted before Shutdown was never handed to the export function", i))
+		}
+		if !anyFail && begins[i] > 1 {
+			fail("duplicate-export", fmt.Sprintf("id %d exported %d times although no attempt failed", i, begins[i]))
+		}
+		if cfg.persistent {
+			lo, begun := lastOut[i]
+			final := begun && (lo == 0 || lo == 2 || (lo == 1 && (cfg.mode == 0 || cfg.mode == 3)))
+			if !final && !vContains(stored, i) {
+				fail("not-durable", fmt.Sprintf("id %d accepted before Shutdown: last outcome %d (begun=%v), not in the storage", i, lo, begun))
+			}
+		}
+	}
+	if helpers != 0 {
+		_, _, busy := h.snapshot()
+		fail("goroutine-leak", fmt.Sprintf("%d helper goroutine(s) alive after Shutdown returned: %s", helpers, busy))
+	}
+	if cfg.persistent {
+		st.mu.Lock()
+		closes, after := st.closes, st.afterClose
+		st.mu.Unlock()
+		lateRefused := 0
+		for _, e := range evs {
+			if e.kind == 5 {
+				lateRefused++
+			}
+		}
+		if closes != 1 {
+			fail("storage-misuse", fmt.Sprintf("storage client closed %d times by the time Shutdown returned", closes))
+		}
+		if after > lateRefused {
+			fail("storage-misuse", fmt.Sprintf("%d storage operations after Close (%d offers refused)", after, lateRefused))
+		}
+	}
+}
+
+// vRestart starts a fresh exporter over the same storage with an always-succeeding backend.
+func vRestart(out *vOut, cfg vCfg, st *vStorage, stored []int, fail func(kind, detail string)) {
+	cfg2 := cfg
+	cfg2.mode = 0
+	cfg2.capacity = 0 // not C01's finding F2: a full queue at restart refuses the re-enqueue of dispatched items
+	h2, err := vNewRun(cfg2, st, true)
+	if err != nil {
+		fail("harness-setup", "restart: "+err.Error())
+	} else {
+		h2.quiesce()
+		go func() { _ = h2.be.Shutdown(context.Background()); h2.log(2, nil, 0) }()
+		deadline := time.Now().Add(20 * time.Second)
+		for {
+			h2.mu.Lock()
+			r := h2.returned
+			h2.mu.Unlock()
+			if r || time.Now().After(deadline) {
+				break
+			}
+			time.Sleep(200 * time.Microsecond)
+		}
+		got := map[int]bool{}
+		h2.mu.Lock()
+		for _, e := range h2.events {
+			if e.kind == 0 {
+				for _, i := range e.ids {
+					got[i] = true
+				}
+			}
+		}
+		h2.mu.Unlock()
+		for _, i := range stored {
+			if !got[i] {
+				fail("not-redelivered", fmt.Sprintf("id %d was stored after shutdown but the next instance did not export it", i))
+			}
+		}
+		out.Stat("restarts", 1)
+	}
 }
 
 // vSchedule generates and runs one schedule; evaluates the direct oracle; returns the case term.
@@ -491,6 +697,7 @@ func vSchedule(out *vOut, rng *vRand, nr int) vSched {
 	fail := func(kind, detail string) {
 		res.failed = true
 		out.Oracle(kind, fmt.Sprintf("(%s, %s, ([], 0))", cfg.term(), vList(phases)), detail)
+		vFlush(out)
 	}
 	endPhase := func(act string) bool {
 		ph := h.phase
@@ -551,11 +758,24 @@ func vSchedule(out *vOut, rng *vRand, nr int) vSched {
 			if wRel == 0 && wOffer == 0 {
 				_, _, busy := h.snapshot()
 				fail("shutdown-hangs", "Shutdown called, every export call answered, nothing in flight, no return: "+busy)
+				res.abort = true
 				ok = false
 				break
 			}
 		}
-		switch rng.Pick(wOffer, wRel, wShut) {
+		// the flush timer can be fired deterministically when the single consumer is idle, the worker is
+		// free (nothing in flight, no work parked in a long back-off) and requests sit in the current batch
+		// (accepted, never begun)
+		wTimer := 0
+		if cfg.batch && cfg.timer && !shutdownCalled && len(infl) == 0 && len(backoff) == 0 {
+			bg := begunIDs()
+			for _, i := range accepted {
+				if !bg[i] {
+					wTimer = 2
+				}
+			}
+		}
+		switch rng.Pick(wOffer, wRel, wShut, wTimer) {
 		case 0:
 			id, items := nextID, 1+rng.Intn(3)
 			nextID++
@@ -607,6 +827,38 @@ func vSchedule(out *vOut, rng *vRand, nr int) vSched {
 				h.log(2, nil, 0)
 			}()
 			ok = endPhase("(2, 0, 0)")
+		case 3:
+			tm := vBatchTimer(h.be)
+			if tm == nil {
+				fail("harness-setup", "cannot reach the batcher's flush timer (defaultBatcher.timer)")
+				ok = false
+				break
+			}
+			h.mu.Lock()
+			before := len(h.events)
+			h.mu.Unlock()
+			tm.Reset(time.Nanosecond)
+			// the timer goroutine must flush the current batch: wait for that export to begin
+			deadline := time.Now().Add(20 * time.Second)
+			for {
+				h.mu.Lock()
+				n := len(h.events)
+				h.mu.Unlock()
+				if n > before {
+					break
+				}
+				if time.Now().After(deadline) {
+					fail("lost-accepted-request", "the flush timer fired but the current batch was not exported within 20 s")
+					res.abort = true
+					ok = false
+					break
+				}
+				time.Sleep(50 * time.Microsecond)
+			}
+			out.Stat("timer_fired", 1)
+			if ok {
+				ok = endPhase("(3, 0, 0)")
+			}
 		}
 	}
 	h.mu.Lock()
@@ -641,138 +893,13 @@ func vSchedule(out *vOut, rng *vRand, nr int) vSched {
 
 	// ---- direct oracle on the ordered event log ----------------------------------------------------
 	if ok {
-		h.mu.Lock()
-		evs := append([]vEvent(nil), h.events...)
-		h.mu.Unlock()
-		retAt, innerAt, callAt := -1, -1, -1
-		anyFail := false
-		for k, e := range evs {
-			switch e.kind {
-			case 2:
-				retAt = k
-			case 3:
-				if innerAt >= 0 {
-					fail("begin-after-return", "wrapped exporter shut down twice")
-				}
-				innerAt = k
-			case 7:
-				callAt = k
-			case 1:
-				if e.out != 0 {
-					anyFail = true
-				}
-			}
-		}
-		if innerAt < 0 || innerAt > retAt {
-			fail("begin-after-return", "wrapped exporter not shut down before Shutdown returned")
-		}
-		begins := map[int]int{}
-		lastOut := map[int]int{}
-		open := map[string]int{}
-		for k, e := range evs {
-			key := fmt.Sprint(e.ids)
-			switch e.kind {
-			case 0:
-				if k > retAt {
-					fail("begin-after-return", fmt.Sprintf("export of %v began after Shutdown returned", e.ids))
-				} else if innerAt >= 0 && k > innerAt {
-					fail("begin-after-return", fmt.Sprintf("export of %v began after the wrapped exporter was shut down", e.ids))
-				}
-				for _, i := range e.ids {
-					begins[i]++
-					lastOut[i] = -1
-				}
-				open[key]++
-			case 1:
-				open[key]--
-				for _, i := range e.ids {
-					lastOut[i] = e.out
-				}
-			case 2:
-				for kk, n := range open {
-					if n > 0 {
-						fail("export-open-at-return", "export call "+kk+" had not returned when Shutdown returned")
-					}
-				}
-			}
-		}
-		_ = callAt
-		for _, i := range acceptedPre {
-			if !cfg.persistent && begins[i] == 0 {
-				fail("lost-accepted-request", fmt.Sprintf("id %d accepted before Shutdown was never handed to the export function", i))
-			}
-			if !anyFail && begins[i] > 1 {
-				fail("duplicate-export", fmt.Sprintf("id %d exported %d times although no attempt failed", i, begins[i]))
-			}
-			if cfg.persistent {
-				lo, begun := lastOut[i]
-				final := begun && (lo == 0 || lo == 2 || (lo == 1 && (cfg.mode == 0 || cfg.mode == 3)))
-				if !final && !vContains(stored, i) {
-					fail("not-durable", fmt.Sprintf("id %d accepted before Shutdown: last outcome %d (begun=%v), not in the storage", i, lo, begun))
-				}
-			}
-		}
-		if helpers != 0 {
-			_, _, busy := h.snapshot()
-			fail("goroutine-leak", fmt.Sprintf("%d helper goroutine(s) alive after Shutdown returned: %s", helpers, busy))
-		}
-		if cfg.persistent {
-			st.mu.Lock()
-			closes, after := st.closes, st.afterClose
-			st.mu.Unlock()
-			lateRefused := 0
-			for _, e := range evs {
-				if e.kind == 5 {
-					lateRefused++
-				}
-			}
-			if closes != 1 {
-				fail("storage-misuse", fmt.Sprintf("storage client closed %d times by the time Shutdown returned", closes))
-			}
-			if after > lateRefused {
-				fail("storage-misuse", fmt.Sprintf("%d storage operations after Close (%d offers refused)", after, lateRefused))
-			}
-		}
+		vOracle(h, cfg, st, acceptedPre, stored, helpers, fail)
 	}
 	h.releaseAll()
 
 	// ---- restart: what is still stored must be delivered by the next instance -------------------------
 	if ok && cfg.persistent && !res.failed && len(stored) > 0 {
-		cfg2 := cfg
-		cfg2.mode = 0
-		h2, err := vNewRun(cfg2, st, true)
-		if err != nil {
-			fail("harness-setup", "restart: "+err.Error())
-		} else {
-			h2.quiesce()
-			go func() { _ = h2.be.Shutdown(context.Background()); h2.log(2, nil, 0) }()
-			deadline := time.Now().Add(20 * time.Second)
-			for {
-				h2.mu.Lock()
-				r := h2.returned
-				h2.mu.Unlock()
-				if r || time.Now().After(deadline) {
-					break
-				}
-				time.Sleep(200 * time.Microsecond)
-			}
-			got := map[int]bool{}
-			h2.mu.Lock()
-			for _, e := range h2.events {
-				if e.kind == 0 {
-					for _, i := range e.ids {
-						got[i] = true
-					}
-				}
-			}
-			h2.mu.Unlock()
-			for _, i := range stored {
-				if !got[i] {
-					fail("not-redelivered", fmt.Sprintf("id %d was stored after shutdown but the next instance did not export it", i))
-				}
-			}
-			out.Stat("restarts", 1)
-		}
+		vRestart(out, cfg, st, stored, fail)
 	}
 
 	// ---- histograms ---------------------------------------------------------------------------------
@@ -801,18 +928,183 @@ func vSchedule(out *vOut, rng *vRand, nr int) vSched {
 	return res
 }
 
+// vStress: an UNGATED schedule — concurrent producers, a backend that answers by itself with random
+// outcomes and delays, batching with max_size splitting and a firing flush timer, small queues, Shutdown
+// at a random moment.  Nondeterministic, therefore oracle-only (no case line for the Coq model).
+// Every item has its own id (request r has items 10r+1 .. 10r+k).
+func vStress(out *vOut, rng *vRand, nr int) (failed, abort bool) {
+	cfg := vCfg{
+		persistent: rng.Intn(100) < 40,
+		batch:      rng.Intn(100) < 60,
+		timer:      rng.Intn(100) < 70,
+		legacy:     rng.Intn(100) < 30,
+		mode:       rng.Intn(4),
+		consumers:  1 + rng.Intn(4),
+		min:        1 + rng.Intn(8),
+	}
+	if cfg.batch {
+		if rng.Bool() {
+			cfg.max = cfg.min + rng.Intn(6)
+		}
+		if rng.Intn(100) < 70 {
+			cfg.flush = time.Duration(1+rng.Intn(4)) * time.Millisecond
+		}
+	} else {
+		cfg.timer, cfg.legacy, cfg.min = false, false, 0
+	}
+	if rng.Intn(100) < 30 {
+		cfg.capacity = 3 + rng.Intn(6)
+	}
+	st := &vStorage{m: map[string][]byte{}}
+	h, err := vNewRun(cfg, st, false)
+	if err != nil {
+		out.Oracle("harness-setup", cfg.term(), err.Error())
+		return true, false
+	}
+	h.mu.Lock()
+	h.stress = vNewRand(uint64(1000003*nr + 17))
+	h.mu.Unlock()
+	desc := fmt.Sprintf("stress #%d cfg=%+v", nr, cfg)
+	fail := func(kind, detail string) {
+		failed = true
+		out.Oracle(kind, "(* "+desc+" *)", detail)
+		vFlush(out)
+	}
+	producers := 1 + rng.Intn(3)
+	perProducer := 2 + rng.Intn(6)
+	seeds := make([]uint64, producers)
+	for p := range seeds {
+		seeds[p] = rng.U64()
+	}
+	var wg sync.WaitGroup
+	var amu sync.Mutex
+	acceptedAt := map[int]int{} // item id -> index in the event log when its offer returned
+	var stop bool
+	for p := 0; p < producers; p++ {
+		wg.Add(1)
+		go func(p int) {
+			defer wg.Done()
+			pr := &vRand{s: seeds[p]}
+			for k := 0; k < perProducer; k++ {
+				amu.Lock()
+				stopped := stop
+				amu.Unlock()
+				if stopped {
+					return
+				}
+				rid := 1 + p*perProducer + k
+				n := 1 + pr.Intn(3)
+				ids := make([]int, n)
+				for j := range ids {
+					ids[j] = 10*rid + j + 1
+				}
+				if err := h.be.Send(context.Background(), &vReq{ids: ids, items: n}); err == nil {
+					h.mu.Lock()
+					at := len(h.events)
+					h.events = append(h.events, vEvent{kind: 4, ids: ids, phase: h.phase})
+					h.mu.Unlock()
+					amu.Lock()
+					for _, i := range ids {
+						acceptedAt[i] = at
+					}
+					amu.Unlock()
+				} else if strings.Contains(err.Error(), "storage client is closed") {
+					h.log(5, ids, 0) // an offer after the queue released its storage client
+				}
+				if pr.Intn(3) == 0 {
+					time.Sleep(time.Duration(pr.Intn(400)) * time.Microsecond)
+				}
+			}
+		}(p)
+	}
+	// Shutdown at a random moment
+	switch rng.Intn(3) {
+	case 0:
+	case 1:
+		time.Sleep(time.Duration(rng.Intn(1500)) * time.Microsecond)
+	case 2:
+		wg.Wait()
+	}
+	h.log(7, nil, 0)
+	done := make(chan struct{})
+	go func() {
+		_ = h.be.Shutdown(context.Background())
+		h.log(2, nil, 0)
+		close(done)
+	}()
+	select {
+	case <-done:
+	case <-time.After(30 * time.Second):
+		_, _, busy := h.snapshot()
+		fail("shutdown-hangs", "Shutdown did not return within 30 s with a backend that answers every call: "+busy)
+		h.releaseAll()
+		return true, true
+	}
+	amu.Lock()
+	stop = true
+	amu.Unlock()
+	wg.Wait()
+	// let the scheduler retire the goroutines that have finished their work
+	helpers := 0
+	for k := 0; k < 2000; k++ {
+		if _, helpers, _ = h.snapshot(); helpers == 0 {
+			break
+		}
+		time.Sleep(100 * time.Microsecond)
+	}
+	h.mu.Lock()
+	callAt := -1
+	for k, e := range h.events {
+		if e.kind == 7 {
+			callAt = k
+		}
+	}
+	h.mu.Unlock()
+	var acceptedPre []int
+	for i, at := range acceptedAt {
+		if at < callAt {
+			acceptedPre = append(acceptedPre, i)
+		}
+	}
+	sort.Ints(acceptedPre)
+	stored := st.storedIDs()
+	if !cfg.persistent {
+		stored = nil
+	}
+	vOracle(h, cfg, st, acceptedPre, stored, helpers, fail)
+	h.releaseAll()
+	if cfg.persistent && !failed && len(stored) > 0 {
+		vRestart(out, cfg, st, stored, fail)
+	}
+	out.Stat("stress_schedules", 1)
+	out.Stat("stress_items_accepted_before_shutdown", len(acceptedPre))
+	if cfg.max > 0 {
+		out.Stat("stress_cfg_max_size", 1)
+	}
+	if cfg.flush > 0 {
+		out.Stat("stress_cfg_firing_timer", 1)
+	}
+	if cfg.capacity > 0 {
+		out.Stat("stress_cfg_small_queue", 1)
+	}
+	if len(stored) > 0 {
+		out.Stat("stress_items_left_in_storage", len(stored))
+	}
+	return failed, false
+}
+
 func TestVerifC03(t *testing.T) {
 	out := vOpen()
 	defer out.Close()
 	rng := vNewRand(3)
-	n := vBudget(180, 25)
+	n := vBudget(720, 20)
 	t0 := time.Now()
 	for k := 0; k < n; k++ {
 		r := vSchedule(out, rng, k)
 		if r.abort {
 			out.Stat("schedules_failed", 1)
 			out.Stat("run_aborted_after_deadline", 1)
-			break
+			return
 		}
 		switch {
 		case r.failed:
@@ -824,5 +1116,18 @@ func TestVerifC03(t *testing.T) {
 			out.Stat("schedules_compared", 1)
 		}
 	}
-	out.Stat("wall_ms", int(time.Since(t0).Milliseconds()))
+	out.Stat("gated_wall_ms", int(time.Since(t0).Milliseconds()))
+	t1 := time.Now()
+	srng := vNewRand(33)
+	for k, ns := 0, vBudget(400, 20); k < ns; k++ {
+		f, abort := vStress(out, srng, k)
+		if f {
+			out.Stat("stress_failed", 1)
+		}
+		if abort {
+			out.Stat("run_aborted_after_deadline", 1)
+			break
+		}
+	}
+	out.Stat("stress_wall_ms", int(time.Since(t1).Milliseconds()))
 }
